@@ -24,7 +24,7 @@ META = {
                      "NumPy scalar division by zero yields inf/nan without raising"],
     "assumptions": ["the base tracker's update/get are decided by C10"],
 }
-MIN_INSTANCES = {"TYPESTATE": 4, "FORMULA": 3, "ZERODIV": 1, "NOMUT": 1}
+MIN_INSTANCES = {"TYPESTATE": 4, "FORMULA": 3, "ZERODIV": 1, "NOMUT": 1, "COPY": 1}
 CLS = "MultiValueTracker"
 REMOVERS = {"pop", "popitem", "remove", "discard", "clear", "difference_update", "intersection_update",
             "symmetric_difference_update", "__delitem__"}
@@ -66,6 +66,16 @@ class SharedState(Exception):
 
 
 def check(run):
+    _check_own(run)
+    # COPY: a copied multi-value tracker owns its per-key trackers and its key set
+    from .copylib import copy_protocol
+    prog = run.prog
+    for cls in [prog.find_class(CLS)]:
+        if cls is not None:
+            copy_protocol(run, prog, cls)
+
+
+def _check_own(run):
     prog = run.prog
     cls = prog.find_class(CLS)
     run.need(cls is not None, f"anchor class {CLS} vanished")
